@@ -60,9 +60,10 @@ type groupBy struct {
 	group []reflect.Value
 }
 
-// String keeps the iterator's address out of anything that prints it.
-func (g *groupBy) String() string {
-	return fmt.Sprintf("groupBy(%d of %d groups left)", len(g.group)-g.pos, len(g.group))
+// Format keeps the iterator's address out of anything that prints it with
+// package fmt.
+func (g *groupBy) Format(f fmt.State, verb rune) {
+	fmt.Fprintf(f, "groupBy(%d of %d groups left)", len(g.group)-g.pos, len(g.group))
 }
 
 // Next returns the next group from the GroupBy
